@@ -2,7 +2,9 @@ import Xp.Model.C10
 /-
 C10 model, part 2: RenderFromJSON, RenderComposedResourceMetadata and the render / apply loops of
 PTComposer.Compose (composition_render.go, composition_pt.go), over the unstructured accessors of
-k8s.io/apimachinery they use.
+k8s.io/apimachinery they use; the apply step for one composed resource (merge.go: mergeOptions,
+withMergeOptions, mergeReplace, mergePath; crossplane-runtime APIPatchingApplicator.Apply; the API
+server's JSON merge patch).
 -/
 namespace Xp.C10
 open V (lookup setKey eraseKey)
@@ -218,6 +220,9 @@ structure Tpl where
   applyOutcome : ApplyOutcome
   /-- status of the composed resource as stored (read by the to-XR patches after the apply) -/
   status : Option V := none
+  /-- the existing composed resource as the API server holds it before this reconcile (what the
+  applicator's Get returns); `none` for a template without an existing resource -/
+  cur : Option V := none
   deriving Inhabited
 
 /-- one write attempt; `idx = none` is the composite resource itself, `some i` template i's resource -/
@@ -258,36 +263,108 @@ def renderAll (xr : V) : List Tpl → Option (List Rendered)
     | none => none
     | some r => (renderAll xr ts).map (r :: ·)
 
-structure ComposeRes where
-  err : String
-  rendered : List Bool
-  refs : List (String × String)
-  writes : List Write
-  bodies : List V
-  synced : List Bool
+/-! ### the apply step (merge.go, APIPatchingApplicator.Apply, JSON merge patch) -/
+
+/-- mergePath(path, dst, src, mo): the value src holds at `path` (if any, and not nil) is merged
+into dst at the same path. The Go code returns nil on `IsNotFound(err) || val == nil`, and
+GetValue returns a nil value with every error: no error of the lookup (unparsable path, a scalar
+on the way) gets past that test – all of them mean "nothing to merge". -/
+def mergePath (orc : List Orc) (path : Path) (dst src : V) (mo : Option MergeOpts) : Out :=
+  match getPath src path with
+  | .error _ => ⟨dst, none⟩
+  | .ok .null => ⟨dst, none⟩
+  | .ok val => patchToObject orc path val dst mo
+
+/-- mergeReplace(path, current, desired, mo): desired's value at `path` is merged onto a copy of
+current with the merge options, and the merged value replaces desired's. `to` is the desired object
+afterwards (not meaningful after an error: the apply is abandoned then). -/
+def mergeReplace (orc : List Orc) (path : Path) (current desired : V) (mo : Option MergeOpts) : Out :=
+  let o1 := mergePath orc path current desired mo
+  match o1.err with
+  | some e => ⟨desired, some e⟩
+  | none => mergePath [] path desired o1.to none
+
+/-- mergeOptions(filterPatches(patches, patchTypesFromXR()...)): the apply option a patch
+contributes – `withMergeOptions(*p.ToFieldPath, p.Policy.MergeOptions)` for a from-XR patch (raw
+type) that has a policy and a toFieldPath. -/
+def Patch.applyOpt (p : Patch) : Option (Path × Option MergeOpts) :=
+  if patchTypesFromXR.contains p.type then
+    match p.policy, p.toPath with
+    | some pol, some tp => some (tp, pol.mergeOptions)
+    | _, _ => none
+  else none
+
+/-- the loop over the apply options in APIPatchingApplicator.Apply: each option rewrites `desired`
+given the object read from the API server; the first error abandons the apply -/
+def applyOpts (current : V) : V → List Patch → Except E V
+  | desired, [] => .ok desired
+  | desired, p :: ps =>
+    match p.applyOpt with
+    | none => applyOpts current desired ps
+    | some (tp, mo) =>
+      let o := mergeReplace p.applyOrc tp current desired mo
+      match o.err with
+      | some e => .error e
+      | none => applyOpts current o.to ps
+
+mutual
+/-- JSON merge patch (RFC 7386) as the API server applies it: objects merge key by key, a null
+deletes the key, everything else (arrays included) replaces. -/
+def mergePatchV : V → V → V
+  | t, .obj pm => .obj (mergePatchFields (match t with | .obj tm => tm | _ => []) pm)
+  | _, p => p
+def mergePatchFields : List (String × V) → List (String × V) → List (String × V)
+  | tm, [] => tm
+  | tm, (k, .null) :: rest => mergePatchFields (eraseKey k tm) rest
+  | tm, (k, v) :: rest => mergePatchFields (setKey k (mergePatchV ((lookup k tm).getD .null) v) tm) rest
+end
+
+/-- What the apply step sends for ONE rendered composed resource and what the API server holds
+afterwards if it accepts it – `(body, stored)`. A new resource is created as rendered. For an
+existing one the applicator reads the current object, runs the apply options of THIS template's
+patches over the rendered object and sends the result as a JSON merge patch. An error means that
+an apply option failed: nothing is sent. (MustBeControllableBy / RespectOwnerRefs are not part of
+the model: the scenario's existing resources are controlled by the XR and are not Usages.) -/
+def sentFor (t : Tpl) (cd : V) : Except E (V × V) :=
+  if t.refName == "" then .ok (cd, cd)
+  else
+    let cur := t.cur.getD .null
+    match applyOpts cur cd t.patches with
+    | .error e => .error e
+    | .ok d => .ok (d, mergePatchV cur d)
+
+/-- one object sent to the API server for the composed resource of template `idx` -/
+structure Sent where
+  idx : Nat
+  /-- the created object, or the body of the merge patch -/
+  body : V
+  /-- what the API server holds for the resource once it has accepted the write -/
+  stored : V
   deriving Inhabited
 
-/-- The apply loop: resources that were not rendered are skipped; Invalid is tolerated; any other
-error aborts. Returns the writes, the bodies of created resources, the per-template "applied"
-flags and whether the loop aborted. -/
-def applyLoop : Nat → List (Tpl × Rendered) → List Write × List V × List Bool × Bool
+/-- The apply loop: resources that were not rendered are skipped; a failing apply option aborts
+before anything is sent; Invalid is tolerated; any other error aborts. Returns the writes, what
+was sent with them, the per-template "applied" flags and whether the loop aborted. -/
+def applyLoop : Nat → List (Tpl × Rendered) → List Write × List Sent × List Bool × Bool
   | _, [] => ([], [], [], false)
   | i, (t, r) :: rest =>
     if !r.rendered then
       let (ws, bs, fl, ab) := applyLoop (i + 1) rest
       (ws, bs, false :: fl, ab)
     else
-      let create := t.refName == ""
-      let w : Write := ⟨if create then "create" else "patch", some i⟩
-      let body := if create then [r.cd] else []
-      match t.applyOutcome with
-      | .error => ([w], body, [false], true)
-      | .invalid =>
-        let (ws, bs, fl, ab) := applyLoop (i + 1) rest
-        (w :: ws, body ++ bs, false :: fl, ab)
-      | .ok =>
-        let (ws, bs, fl, ab) := applyLoop (i + 1) rest
-        (w :: ws, body ++ bs, true :: fl, ab)
+      match sentFor t r.cd with
+      | .error _ => ([], [], [false], true)
+      | .ok (b, st) =>
+        let w : Write := ⟨if t.refName == "" then "create" else "patch", some i⟩
+        let snt : Sent := ⟨i, b, st⟩
+        match t.applyOutcome with
+        | .error => ([w], [snt], [false], true)
+        | .invalid =>
+          let (ws, bs, fl, ab) := applyLoop (i + 1) rest
+          (w :: ws, snt :: bs, false :: fl, ab)
+        | .ok =>
+          let (ws, bs, fl, ab) := applyLoop (i + 1) rest
+          (w :: ws, snt :: bs, true :: fl, ab)
 
 /-- The observe loop: to-XR patches of every applied resource; an error is terminal. -/
 def observeLoop : V → List (Tpl × Rendered × Bool) → V × Bool
@@ -307,21 +384,37 @@ def zip3 {α β γ} : List α → List β → List γ → List (α × β × γ)
   | a :: as, b :: bs, c :: cs => (a, b, c) :: zip3 as bs cs
   | _, _, _ => []
 
+structure ComposeRes where
+  err : String
+  rendered : List Bool
+  refs : List (String × String)
+  writes : List Write
+  /-- what was sent for the composed resources, in write order -/
+  sent : List Sent
+  /-- per template: the API server accepted the write (as far as the apply loop got) -/
+  applied : List Bool
+  synced : List Bool
+  deriving Inhabited
+
+/-- the objects the API server holds for the resources whose write it accepted, in write order -/
+def ComposeRes.stored (r : ComposeRes) : List V :=
+  (r.sent.filter fun s => r.applied.getD s.idx false).map (·.stored)
+
 /-- PTComposer.Compose from the render loop on (template association and patch-set inlining are
 not part of this model: the scenario gives the association). -/
 def composePT (xr : V) (tpls : List Tpl) (updateFails : Bool) : ComposeRes :=
   match renderAll xr tpls with
-  | none => ⟨"parseBase", [], [], [], [], []⟩
+  | none => ⟨"parseBase", [], [], [], [], [], []⟩
   | some rs =>
     let rendered := rs.map (·.rendered)
     let refs := rs.map fun r => (kindOf r.cd, getMetaStr r.cd "name")
     let upd : Write := ⟨"update", none⟩
-    if updateFails then ⟨"update", rendered, refs, [upd], [], []⟩ else
-    let (ws, bodies, applied, aborted) := applyLoop 0 (tpls.zip rs)
-    if aborted then ⟨"apply", rendered, refs, upd :: ws, bodies, []⟩ else
+    if updateFails then ⟨"update", rendered, refs, [upd], [], [], []⟩ else
+    let (ws, sent, applied, aborted) := applyLoop 0 (tpls.zip rs)
+    if aborted then ⟨"apply", rendered, refs, upd :: ws, sent, applied, []⟩ else
     let (_, failed) := observeLoop xr (zip3 tpls rs applied)
-    if failed then ⟨"toXR", rendered, refs, upd :: ws, bodies, []⟩ else
-    ⟨"", rendered, refs, upd :: ws ++ [⟨"patch", none⟩], bodies, applied⟩
+    if failed then ⟨"toXR", rendered, refs, upd :: ws, sent, applied, []⟩ else
+    ⟨"", rendered, refs, upd :: ws ++ [⟨"patch", none⟩], sent, applied, applied⟩
 
 /-- the property predicate, evaluated by the driver on every model run -/
 def unrenderedNotWritten (r : ComposeRes) : Bool :=
